@@ -37,6 +37,9 @@ def cases(ctx):
             pa.append(ipgen.rand_net4(rng, rng.choice([8, 16, 24, 32])))
         if rng.random() < 0.15:
             pa = list(ipgen.RFC1918)
+        if rng.random() < 0.12:
+            # a dual-stack list: the IPv6 block must not disturb what is done for the IPv4 blocks after it
+            pa.insert(rng.randrange(len(pa)), rng.choice(["2001:db8::/32", "fd00::/8", "2001:db8:aa::/48", "::/0"]))
         cfg = {"fam": 4, "salt": "c%d" % rng.getrandbits(40), "B": rng.choice([None, 0, 8, 8, 1, 16, 31]),
                "pp": rng.choice([None, None, [], ["0.0.0.0/0"], [ipgen.rand_net4(rng)]]), "pa": pa,
                "salter": rng.choice(ipgen.SALTERS)}
@@ -65,7 +68,7 @@ def _tok(rng, v, cls):
 
 
 def gen_lines(rng, fcfg, n):
-    pres = [ipaddress.ip_network(a) for a in (fcfg.get("pa") or [])]
+    pres = ipgen.v4nets(fcfg.get("pa"))
     traps = None
     if pres:
         try:
@@ -220,7 +223,7 @@ def _collide(ctx, case):
     cfg = case["cfg"]
     rng = random.Random(case["aseed"])
     B = ipgen.hostbits(cfg)
-    nets = [ipaddress.ip_network(a) for a in cfg["pa"]]
+    nets = ipgen.v4nets(cfg["pa"])
     ranges = [(int(n.network_address), int(n.broadcast_address), str(n)) for n in nets]
     anon = ipgen.build(cfg)
     addrs = case.get("addrs") or ipgen.addresses(rng, cfg, 60)
